@@ -600,6 +600,9 @@ func intrSortSlice(fr *frame, a []value) value {
 // newHiddenInput creates an environment-provided symbolic value (clock, randomness)
 // recorded as an input; [lo,hi) bound applied when hi > 0.
 func (m *machine) newHiddenInput(name string, w int, lo, hi uint64) value {
+	if m.initDepth > 0 {
+		return uint64(lo)
+	}
 	t := m.newInput("env."+name, w, fmt.Sprintf("u%d", w)).(*Term)
 	if hi > 0 {
 		m.addPC(m.ts.Cmp(OpUlt, t, m.ts.Const(w, hi)))
@@ -615,7 +618,10 @@ const unixToInternal = 62135596800
 
 func (m *machine) clockNow() value {
 	// seconds since epoch: symbolic, non-decreasing, < 2^40
-	s := m.newHiddenInput("clock", 64, 0, 1<<40).(*Term)
+	s, ok := m.newHiddenInput("clock", 64, 0, 1<<40).(*Term)
+	if !ok {
+		return structure{uint64(0), uint64(unixToInternal), (*value)(nil)}
+	}
 	if m.lastClock != nil {
 		m.addPC(m.ts.Cmp(OpUle, m.lastClock, s))
 	}
